@@ -19,7 +19,6 @@ import (
 	"math/rand"
 	"os"
 	"path/filepath"
-	"regexp"
 	"sort"
 	"strconv"
 	"strings"
@@ -234,30 +233,6 @@ func aliasExpansion(docs []parser.VerifDoc) int {
 	return total
 }
 
-// embeddedAliasFanout: class predicate of the open known finding C02-nested-alias-fanout: a literal block scalar holds a
-// YAML document whose aliases unfold to more than the limit of 2108dfa; the embedded-YAML path of parseNode checks
-// alias cycles but not the expansion size.
-func embeddedAliasFanout(docs []parser.VerifDoc) bool {
-	found := false
-	for _, d := range docs {
-		walkForest(d.Node, map[*yaml.Node]bool{}, func(n *yaml.Node) {
-			if found || n.Kind != yaml.ScalarNode || strings.Count(n.Value, "\n") <= 1 || n.Style&yaml.LiteralStyle == 0 {
-				return
-			}
-			var e yaml.Node
-			if yaml.Unmarshal([]byte(n.Value), &e) == nil && !nodeHasAliasCycle(&e) &&
-				aliasExpansion([]parser.VerifDoc{{Node: &e}}) > aliasExpansionLimit {
-				found = true
-			}
-		})
-	}
-	return found
-}
-
-// reParenLiteral: class predicate of the open known finding C02-promql-paren-literal: the label argument of
-// label_replace / label_join / count_values is a string literal in parentheses.
-var reParenLiteral = regexp.MustCompile(`(label_replace|label_join)\s*\([^,]*,\s*\(+\s*["'` + "`" + `]|count_values\s*\(\s*\(+\s*["'` + "`" + `]`)
-
 // coqExpandCases: the real diags.LineRange.Expand on the line ranges of this file's problems plus adversarial ranges
 // (empty, inverted by one, inverted by more: `make([]int, 0, Last-First+1)` panics on a negative capacity).
 func coqExpandCases(id int, observed [][2]int) string {
@@ -278,13 +253,6 @@ func coqExpandCases(id int, observed [][2]int) string {
 		items = append(items, fmt.Sprintf("((%d)%%Z, (%d)%%Z, %s)", p[0], p[1], obs))
 	}
 	return coqList(items)
-}
-
-// yamlErrAfterEOF: class predicate of the open known finding C02-yaml-error-after-eof: yaml.v3 reports an error found at
-// the end of the input (unterminated quote, flow collection, ...) on the line after the last one.
-func yamlErrAfterEOF(content []byte, nl int) bool {
-	_, _, yerr, _ := parser.VerifForest(content)
-	return yerr != nil && yerr.Line == nl+1
 }
 
 type c02Fail struct {
@@ -440,7 +408,7 @@ func runC02One(args []string) int {
 	}
 	if term != "" {
 		o.Term = fmt.Sprintf("{| c_base := %s;\n c_entries_strict := %s;\n c_entries_relaxed := %s;\n c_lone_cr := %s;\n c_expand := %s;\n c_inject := %s |}",
-			term, obsS, obsR, coqBool(hasLoneCR(content) || yamlErrAfterEOF(content, nl)), coqExpandCases(id, expandPairs), coqList(injectCases))
+			term, obsS, obsR, coqBool(hasLoneCR(content)), coqExpandCases(id, expandPairs), coqList(injectCases))
 	} else {
 		o.Hist = append(o.Hist, "skipped:forest-too-large")
 	}
@@ -495,7 +463,20 @@ func runC02(args []string) int {
 	gv := newDocGen(r, 0)
 	gb := newDocGen(r, 0.3)
 	for len(items) < n {
-		switch r.Intn(7) {
+		switch r.Intn(8) {
+		case 7:
+			// alias-doubling chains of random depth, at top level or inside a literal block scalar: short ones are parsed,
+			// long ones (unfolding above 10^6 nodes, also far above: 60+ levels exceed 2^63) must be refused / not looked into
+			depth := pick(r, []int{3 + r.Intn(12), 16 + r.Intn(8), 28, 40 + r.Intn(8), 60 + r.Intn(12)})
+			chain := []string{"a0: &a0 [{record: \"chain:a\", expr: up}, x]"}
+			for k := 1; k <= depth; k++ {
+				chain = append(chain, fmt.Sprintf("a%d: &a%d [*a%d, *a%d]", k, k, k-1, k-1))
+			}
+			txt := strings.Join(chain, "\n") + "\n"
+			if r.Intn(2) == 0 {
+				txt = "data:\n  chain.yaml: |\n" + strings.Join(indentLines(chain, 4), "\n") + "\n"
+			}
+			items = append(items, item{txt, "alias-chain"})
 		case 6:
 			// rule lists with many per-field defects inside a scalar of an outer document (YAML in YAML): the error paths of
 			// parseRule with a line offset
@@ -562,38 +543,17 @@ func runC02(args []string) int {
 		tcyc := hasTemplateAliasCycle(it.content)
 		shadow := groupLabelShadowedAfterRules(docs)
 		loneCR := hasLoneCR(content)
-		parenLit := reParenLiteral.MatchString(it.content)
-		_, _, yerrP, _ := parser.VerifForest(content)
-		yamlErrAfterEOF := !loneCR && yerrP != nil && yerrP.Line == nl+1
 		addFail := func(what string, variant string, relaxed bool, extra any) {
 			of := oracleFail{ID: fmt.Sprint(id), What: what, Case: map[string]any{"content": it.content, "class": it.class, "variant": variant, "lines": nl, "observed": extra}}
 			// classes repaired in pint (f44c1ab, da58998, 5f8fd57, aba0d51, 4008951, 147313f) are no longer known
 			// findings: a recurrence is reported as a violation.  Open: line numbers of files with lone CR breaks.
 			// (C02-eof-implicit-null and the makeslice panic on inverted ranges are repaired by 5430596 / 5f804fb: a recurrence is a violation)
-			switch {
-			case loneCR && strings.Contains(what, "outside the file"):
+			// (fixed upstream after being found here, a recurrence is a violation: implicit null after EOF 5430596, makeslice 5f804fb,
+			// alias fan-out 2108dfa + 07824b1, yaml error line after EOF 07824b1, parenthesised promql literals 53ade46)
+			if loneCR && strings.Contains(what, "outside the file") {
 				of.Known = "C02-lone-cr"
-			case yamlErrAfterEOF && strings.Contains(what, "outside the file"):
-				of.Known = "C02-yaml-error-after-eof"
-			case parenLit && strings.Contains(what, "interface conversion: parser.Expr is *parser.ParenExpr, not *parser.StringLiteral"):
-				of.Known = "C02-promql-paren-literal"
 			}
 			o.fails = append(o.fails, of)
-		}
-		if !cyc && embeddedAliasFanout(docs) {
-			// known finding C02-nested-alias-fanout: relaxed mode walks the exponential unfolding of the embedded document.
-			// One run of the real binary in relaxed mode under a short timeout shows the (practical) hang; nothing else is run.
-			o.hist = append(o.hist, "has:nested-alias-fanout", "class:"+it.class)
-			cfg := writeBinConfig(workDir, false, parser.PrometheusSchema, model.UTF8Validation)
-			rc, _, _ := runCmd(workDir, 4*time.Second, nil, os.Getenv("PINT_BIN"), "-c", cfg, "--offline", "-l", "error", "lint", file)
-			if rc == -1 {
-				o.fails = append(o.fails, oracleFail{ID: fmt.Sprint(id),
-					What: "binary: pint (relaxed mode) still running after 4 s on a small file: YAML embedded in a literal block scalar unfolds to more than a million nodes (hang)",
-					Case: map[string]any{"content": it.content, "class": it.class, "lines": nl}, Known: "C02-nested-alias-fanout"})
-			}
-			os.Remove(file)
-			results[i] = o
-			return
 		}
 		// (a)+(b): correspondence term and in-process pipeline, in a child process
 		rc, so, se := runCmd(workDir, 150*time.Second, nil, self, "C02-one", "--file", file, "--id", fmt.Sprint(id), "--names", fmt.Sprint(int(names)), "--schema", fmt.Sprint(int(schema)))
